@@ -26,3 +26,6 @@ mk client_viaint          "$B/CN=DO NOT USE" ca2/int_cert.pem ca2/int_key.pem "$
 cat ca2/server_viaint_cert.pem ca2/int_cert.pem > ca2/server_viaint_fullchain.pem
 cat ca2/client_viaint_cert.pem ca2/int_cert.pem > ca2/client_viaint_fullchain.pem
 rm -f ca2/*.srl
+# a role with upper case and punctuation: the role string must reach the authorization handler unchanged
+mk client_mixedrole       "$B/CN=DO NOT USE" ca2/ca_cert.pem ca2/ca_key.pem "$ROLE=ASN1:UTF8String:Plant-Operator.v2"
+rm -f ca2/*.srl
